@@ -624,9 +624,10 @@ class World:
         """Macro op: a pre-emptive sub-world (engine E3).  Tasks become slots
         of this world so that the ordinary history checkers apply."""
         from .preempt import run_preemptive
-        _, seed, tasks, p_cold, p_hot = op
+        _, seed, tasks, p_cold, p_hot = op[:5]
+        p_exc = op[5] if len(op) > 5 else 0.0
         res = run_preemptive(seed, [tuple(t) for t in tasks], p_cold, p_hot,
-                             {"monitor_counters": False})
+                             {"monitor_counters": False}, p_exc)
         base = 1000 * (1 + sum(1 for o in self.ops[:-1] if o[0] == "e3"))
         for i, tw in enumerate(res.worlds):
             if tw is None:
@@ -643,6 +644,7 @@ class World:
         self.probe("e3_worlds")
         self.probe("e3_line_events", res.line_events)
         self.probe("e3_switches", res.switches)
+        self.probe("e3_excursions", res.excursions)
         self.probe("e3_distinct_sites", len(res.sites))
         self.e3_errors = getattr(self, "e3_errors", []) + res.errors
         self._event(op, ["e3", res.switches, res.line_events,
